@@ -533,3 +533,329 @@ pub fn gen_script(rng: &mut Rng, seq: &SeqCase) -> Vec<crate::simenv::Call> {
     }
     calls
 }
+
+// ------------------------------------------------------------------ line texts
+
+#[derive(Clone, Debug, Serialize, Deserialize, PartialEq)]
+pub struct TextCase {
+    pub alg: Alg,
+    pub old: Vec<u8>,
+    pub new: Vec<u8>,
+    /// diff the texts as [u8] (true) or as str (false; requires valid UTF-8)
+    pub bytes: bool,
+    pub hasher: (u8, u64),
+}
+
+const LINE_POOL: [&[u8]; 14] = [
+    b"a",
+    b"b",
+    b"",
+    b"c",
+    b"foo bar",
+    b"foo baz",
+    b"x",
+    b"-- a",
+    b"++ b",
+    b"@@ -1 +1 @@",
+    b"\\ No newline at end of file",
+    "h\u{e9}llo w\u{f6}rld".as_bytes(),
+    b" ",
+    b"-",
+];
+const BAD_POOL: [&[u8]; 4] = [b"\xff\xfe", b"a\xc3", b"\xe2\x82", b"ok\x80ok"];
+
+fn draw_line(rng: &mut Rng, distinct: usize, invalid: bool) -> Vec<u8> {
+    let mut l: Vec<u8> = if invalid && rng.chance(1, 4) {
+        BAD_POOL[rng.usize(BAD_POOL.len())].to_vec()
+    } else {
+        LINE_POOL[rng.usize(distinct.min(LINE_POOL.len()))].to_vec()
+    };
+    match rng.weighted(&[12, 2, 1]) {
+        0 => l.push(b'\n'),
+        1 => l.extend_from_slice(b"\r\n"),
+        _ => l.push(b'\r'),
+    }
+    l
+}
+
+/// Old text: lines over a small pool (many repeats); new text: an edited copy.
+pub fn gen_text_case(rng: &mut Rng, max_lines: usize, allow_invalid: bool) -> TextCase {
+    let bytes = rng.chance(1, 3);
+    let invalid = bytes && allow_invalid && rng.chance(1, 2);
+    let distinct = *rng.pick(&[2usize, 3, 4, 6, 14]);
+    let n = rng.usize(max_lines + 1);
+    let mut old: Vec<Vec<u8>> = (0..n).map(|_| draw_line(rng, distinct, invalid)).collect();
+    let mut new = old.clone();
+    let edits = rng.usize(4) + if rng.chance(1, 6) { 0 } else { 1 };
+    for _ in 0..edits {
+        match rng.below(7) {
+            0 if !new.is_empty() => {
+                let i = rng.usize(new.len());
+                let l = 1 + rng.usize((new.len() - i).min(3));
+                new.drain(i..i + l);
+            }
+            1 => {
+                let i = rng.usize(new.len() + 1);
+                for _ in 0..1 + rng.usize(3) {
+                    let line = draw_line(rng, distinct, invalid);
+                    new.insert(i, line);
+                }
+            }
+            2 if !new.is_empty() => {
+                let i = rng.usize(new.len());
+                new[i] = draw_line(rng, distinct, invalid);
+            }
+            3 if !new.is_empty() => {
+                let i = rng.usize(new.len());
+                let l = new[i].clone();
+                new.insert(i, l);
+            }
+            4 if new.len() >= 2 => {
+                let i = rng.usize(new.len());
+                let l = new.remove(i);
+                let j = rng.usize(new.len() + 1);
+                new.insert(j, l);
+            }
+            5 if !new.is_empty() => {
+                // change only the terminator of a line
+                let i = rng.usize(new.len());
+                while matches!(new[i].last(), Some(b'\n') | Some(b'\r')) {
+                    new[i].pop();
+                }
+                match rng.below(3) {
+                    0 => new[i].push(b'\n'),
+                    1 => new[i].extend_from_slice(b"\r\n"),
+                    _ => new[i].push(b'\r'),
+                }
+            }
+            _ => {
+                if rng.chance(1, 2) {
+                    std::mem::swap(&mut old, &mut new);
+                }
+            }
+        }
+    }
+    // missing final newline on either side
+    for side in [&mut old, &mut new] {
+        if rng.chance(1, 4) {
+            if let Some(last) = side.last_mut() {
+                while matches!(last.last(), Some(b'\n') | Some(b'\r')) {
+                    last.pop();
+                }
+                if last.is_empty() {
+                    side.pop();
+                }
+            }
+        }
+    }
+    TextCase {
+        alg: *rng.pick(&ALGS),
+        old: old.concat(),
+        new: new.concat(),
+        bytes,
+        hasher: crate::simenv::draw_hasher(rng, true),
+    }
+}
+
+/// Shrink candidates for a text case: drop lines (same line on both sides
+/// first), simplify contents, switch to str.
+pub fn shrink_text(c: &TextCase) -> Vec<TextCase> {
+    use crate::udiff_oracle::split_lines;
+    let mut out = Vec::new();
+    if c.hasher != (0, 0) {
+        let mut d = c.clone();
+        d.hasher = (0, 0);
+        out.push(d);
+    }
+    if c.bytes && std::str::from_utf8(&c.old).is_ok() && std::str::from_utf8(&c.new).is_ok() {
+        let mut d = c.clone();
+        d.bytes = false;
+        out.push(d);
+    }
+    let ol: Vec<Vec<u8>> = split_lines(&c.old).into_iter().map(|l| l.to_vec()).collect();
+    let nl: Vec<Vec<u8>> = split_lines(&c.new).into_iter().map(|l| l.to_vec()).collect();
+    // drop a common first / last line
+    if !ol.is_empty() && !nl.is_empty() {
+        if ol[0] == nl[0] {
+            let mut d = c.clone();
+            d.old = ol[1..].concat();
+            d.new = nl[1..].concat();
+            out.push(d);
+        }
+        if ol[ol.len() - 1] == nl[nl.len() - 1] {
+            let mut d = c.clone();
+            d.old = ol[..ol.len() - 1].concat();
+            d.new = nl[..nl.len() - 1].concat();
+            out.push(d);
+        }
+    }
+    for side in 0..2 {
+        let lines = if side == 0 { &ol } else { &nl };
+        let mut chunk = lines.len() / 2;
+        while chunk >= 1 {
+            let mut start = 0;
+            while start + chunk <= lines.len() {
+                let mut l = lines.clone();
+                l.drain(start..start + chunk);
+                let mut d = c.clone();
+                if side == 0 {
+                    d.old = l.concat();
+                } else {
+                    d.new = l.concat();
+                }
+                out.push(d);
+                start += chunk;
+            }
+            chunk /= 2;
+        }
+    }
+    // simplify single lines: content -> "a"/"b", terminator -> "\n"
+    for side in 0..2 {
+        let lines = if side == 0 { &ol } else { &nl };
+        for i in 0..lines.len() {
+            for repl in [&b"a\n"[..], &b"b\n"[..]] {
+                if (repl.len(), repl) < (lines[i].len(), &lines[i][..]) {
+                    let mut l = lines.clone();
+                    // replace every occurrence on both sides to keep equalities
+                    let target = lines[i].clone();
+                    let mut d = c.clone();
+                    let map = |ls: &Vec<Vec<u8>>| -> Vec<u8> {
+                        ls.iter()
+                            .map(|x| if *x == target { repl.to_vec() } else { x.clone() })
+                            .collect::<Vec<_>>()
+                            .concat()
+                    };
+                    d.old = map(&ol);
+                    d.new = map(&nl);
+                    l.clear();
+                    if d != *c {
+                        out.push(d);
+                    }
+                }
+            }
+        }
+    }
+    out
+}
+
+// ------------------------------------------------------- texts for inline diffs
+
+const IWORDS: [&str; 16] = [
+    "foo", "bar", "baz", "qux", "a", "bb", "h\u{e9}llo", "w\u{f6}rld", "\u{65e5}\u{672c}\u{8a9e}",
+    "x1", "(y)", "f(x)", "=>", "\u{1f642}", "some", "stuff",
+];
+const ISEPS: [&str; 6] = [" ", " ", "  ", "\t", "\u{a0}", "\u{3000}"];
+
+fn iline(rng: &mut Rng, nwords: usize) -> Vec<String> {
+    (0..nwords).map(|_| IWORDS[rng.usize(IWORDS.len())].to_string()).collect()
+}
+
+fn render_iline(rng: &mut Rng, words: &[String], term: &str) -> String {
+    let mut s = String::new();
+    if rng.chance(1, 8) {
+        s.push_str(ISEPS[rng.usize(ISEPS.len())]);
+    }
+    for (i, w) in words.iter().enumerate() {
+        if i > 0 {
+            s.push_str(ISEPS[rng.usize(ISEPS.len())]);
+        }
+        s.push_str(w);
+    }
+    if rng.chance(1, 8) {
+        s.push(' ');
+    }
+    s.push_str(term);
+    s
+}
+
+fn iterm(rng: &mut Rng) -> &'static str {
+    match rng.weighted(&[12, 3, 2]) {
+        0 => "\n",
+        1 => "\r\n",
+        _ => "\r",
+    }
+}
+
+/// Line texts whose replaced blocks share words, so that the inline ratio
+/// gates pass and the second-level word diff has something to do.
+pub fn gen_inline_case(rng: &mut Rng, max_lines: usize) -> TextCase {
+    let n = 1 + rng.usize(max_lines);
+    let mut old: Vec<String> = Vec::new();
+    let mut new: Vec<String> = Vec::new();
+    let mut i = 0;
+    while i < n {
+        let nwords = 1 + rng.usize(6);
+        let words = iline(rng, nwords);
+        let term = iterm(rng);
+        match rng.weighted(&[3, 6, 1, 1, 1]) {
+            0 => {
+                // unchanged line
+                let l = render_iline(rng, &words, term);
+                old.push(l.clone());
+                new.push(l);
+            }
+            1 => {
+                // replaced block: 1..=3 old lines vs 1..=3 new lines sharing words
+                let a = 1 + rng.usize(3);
+                let b = 1 + rng.usize(3);
+                let mut pool = words.clone();
+                for _ in 0..a {
+                    let ne = rng.usize(3);
+                    let extra = iline(rng, ne);
+                    pool.extend(extra);
+                }
+                let mut take = |rng: &mut Rng, pool: &Vec<String>| -> Vec<String> {
+                    let mut ws = Vec::new();
+                    let start = rng.usize(pool.len());
+                    let len = 1 + rng.usize(pool.len());
+                    for t in 0..len.min(pool.len()) {
+                        let mut w = pool[(start + t) % pool.len()].clone();
+                        if rng.chance(1, 5) {
+                            w = IWORDS[rng.usize(IWORDS.len())].to_string();
+                        }
+                        ws.push(w);
+                    }
+                    ws
+                };
+                for _ in 0..a {
+                    let ws = take(rng, &pool);
+                    let t = iterm(rng);
+                    old.push(render_iline(rng, &ws, t));
+                }
+                for _ in 0..b {
+                    let ws = take(rng, &pool);
+                    let t = iterm(rng);
+                    new.push(render_iline(rng, &ws, t));
+                }
+            }
+            2 => old.push(render_iline(rng, &words, term)),
+            3 => new.push(render_iline(rng, &words, term)),
+            _ => {
+                // same words, only the terminator or the spacing differs
+                old.push(render_iline(rng, &words, term));
+                let t2 = iterm(rng);
+                new.push(render_iline(rng, &words, t2));
+            }
+        }
+        i += 1;
+    }
+    for side in [&mut old, &mut new] {
+        if rng.chance(1, 3) {
+            if let Some(last) = side.last_mut() {
+                while last.ends_with('\n') || last.ends_with('\r') {
+                    last.pop();
+                }
+                if last.is_empty() {
+                    side.pop();
+                }
+            }
+        }
+    }
+    TextCase {
+        alg: *rng.pick(&ALGS),
+        old: old.concat().into_bytes(),
+        new: new.concat().into_bytes(),
+        bytes: rng.chance(1, 3),
+        hasher: crate::simenv::draw_hasher(rng, true),
+    }
+}
